@@ -198,7 +198,7 @@ func c11Run(w *W, idx int) {
 		if r.Intn(4) == 0 {
 			// names that are not reserved: other letter cases of the literals, keywords and operator names, the
 			// engine's own marker spellings, dotted and underscored names
-			special := []string{"True", "FALSE", "tRuE", "False", "If", "IF", "AND", "Or", "Not", "DNE", "fi", "Fi", "Mod", "IN", "user.level", "a.b.c", "_x", "x_1", "true1", "iff"}
+			special := []string{"True", "FALSE", "tRuE", "False", "If", "IF", "AND", "Or", "Not", "DNE", "fi", "Fi", "Mod", "IN", "user.level", "a.b.c", "_x", "x_1", "true1", "iff", "é.x", "größe.mm", "日本.abcd", "größe.cm2", "ñ", "π.r"}
 			name = special[(i*7+r.Intn(len(special)))%len(special)]
 			for _, o := range intVars {
 				if o.name == name {
